@@ -146,7 +146,9 @@ func (m *seatMirror) prevWhere(from int, f func(int) bool) int {
 
 // strictlyBetween: s lies strictly between a and b going clockwise from a.
 func strictlyBetween(n, a, b, s int) bool {
-	if a < 0 || b < 0 {
+	if a < 0 || b < 0 || a == b {
+		// dealer seat == BB seat is the degenerate button state recorded as C04's known finding; no
+		// seat is taken to lie strictly between a seat and itself
 		return false
 	}
 	for i := (a + 1) % n; i != b; i = (i + 1) % n {
@@ -512,7 +514,7 @@ func (b *seatBFS) oracle(from int32, op seatOp, before, after *seatMirror, errSt
 				v("dealer-not-dealt-in@init", "short deck: dealer seat holds no dealt-in player")
 			}
 		}
-		b.missStep(newMiss, after, v)
+		b.missStep(newMiss, nil, after, v)
 	case "rotate":
 		liveN := before.count(before.live)
 		if errStr != "" {
@@ -538,7 +540,7 @@ func (b *seatBFS) oracle(from int32, op seatOp, before, after *seatMirror, errSt
 			if after.DealerSeatID != want {
 				v("shortdeck-dealer", fmt.Sprintf("dealer moved to %d, next dealt-in seat is %d", after.DealerSeatID, want))
 			}
-			b.missStep(newMiss, after, v)
+			b.missStep(newMiss, before, after, v)
 			return newMiss
 		}
 		wantBB := before.nextWhere(before.BBSeatID, before.live)
@@ -595,13 +597,13 @@ func (b *seatBFS) oracle(from int32, op seatOp, before, after *seatMirror, errSt
 				v("C05:dealt-in-player-made-to-wait", fmt.Sprintf("seat %d was dealt in, still has chips and is seated, but is not dealt into the next hand", s))
 			}
 		}
-		b.missStep(newMiss, after, v)
+		b.missStep(newMiss, before, after, v)
 	}
 	return newMiss
 }
 
 // missStep updates the per-seat counter of consecutive hands missed while seated-in with chips.
-func (b *seatBFS) missStep(miss []int8, after *seatMirror, v func(string, string)) {
+func (b *seatBFS) missStep(miss []int8, before, after *seatMirror, v func(string, string)) {
 	if miss == nil {
 		return
 	}
@@ -611,7 +613,13 @@ func (b *seatBFS) missStep(miss []int8, after *seatMirror, v func(string, string
 				miss[s]++
 			}
 			if miss[s] > 3 {
-				v("C05:missed-more-than-three", fmt.Sprintf("seat %d is seated-in with chips and has now missed %d hands in a row", s, miss[s]))
+				// discriminate: is the player waiting because the rotation rule says so (still strictly between the
+				// seat the rule takes as dealer - the previous SB seat - and the new BB), or is the flag stuck?
+				pat := "flag-stuck"
+				if before != nil && strictlyBetween(b.n, before.SBSeatID, after.BBSeatID, s) {
+					pat = "still-between-previous-sb-and-new-bb"
+				}
+				v("C05:missed-more-than-three@"+pat, fmt.Sprintf("seat %d is seated-in with chips and has now missed %d hands in a row", s, miss[s]))
 			}
 		} else {
 			miss[s] = 0
